@@ -289,7 +289,7 @@ fn run(args: Args) -> Report {
     // W2: generated + damaged workspaces until the budget is used.
     let mut n = 0u64;
     while t0.elapsed().as_secs_f64() < args.budget_s {
-        let case_seed = r.next_u64();
+        let Some(case_seed) = args.next_case(&mut r) else { break };
         let mut cr = Rng::new(case_seed);
         let d = damage::damaged_workspace(&mut cr);
         let fj = files_json(&d.files);
